@@ -226,10 +226,7 @@ package dns
 //@    }
 //@    return true
 //@ }
-//@ func init
-//@   property C09, C11
-//@ property C09, C11
-//@ fact fullFragmentFits()                                :bounded_full_fragment_fits_a_name_for_every_codec_and_domain_length
+// (the fact is stated with the other closed facts at the end of the file)
 
 // C11: a downstream codec probe passes only when the reply is the expected pattern: a reply of the wrong
 // length or with a wrong octet is an error
@@ -237,3 +234,369 @@ package dns
 //@   property C11
 //@   callsite return#1 (ret0 error) require ret0 != nil                                   :wrong_length_is_an_error
 //@   callsite return#2 (ret0 error) require ret0 != nil                                   :wrong_octet_is_an_error
+
+// ===================================================================================================
+// C09 / C10: requests and responses survive the REAL DNS wire (miekg Pack / Unpack), decided by running the real
+// serializer, record wrapping, wire packing and command decoding over a finite grid on every check (bounded:
+// labelled so, never used as an assumption).  The per-command Encode/Decode pairs go through bytes.Buffer and
+// encoding/binary (reflection), which the verifier cannot bring under contract; this is their stand-in.
+//@ import mdns "github.com/miekg/dns"
+//@ import bytes "bytes"
+//@ import fmt "fmt"
+//@ go func specWire(m *mdns.Msg) (*mdns.Msg, []byte) {
+//@    b, err := m.Pack()
+//@    if err != nil {
+//@       return nil, nil
+//@    }
+//@    out := &mdns.Msg{}
+//@    if err := out.Unpack(b); err != nil {
+//@       return nil, b
+//@    }
+//@    return out, b
+//@ }
+//@ go func specPat(n, kind int) []byte {
+//@    d := make([]byte, n)
+//@    for i := range d {
+//@       switch kind % 5 {
+//@       case 0:
+//@          d[i] = 0xff
+//@       case 1:
+//@          d[i] = byte(i*7 + n)
+//@       case 2:
+//@          d[i] = 0
+//@       case 3:
+//@          d[i] = '.'
+//@       case 4:
+//@          d[i] = '\\'
+//@       }
+//@    }
+//@    return d
+//@ }
+//@ go func specErrSame(a, b error) bool {
+//@    if a == nil || b == nil {
+//@       return a == nil && b == nil
+//@    }
+//@    return a.Error() == b.Error()
+//@ }
+//@ go func specPacketSame(a, b *util.Packet) bool {
+//@    if a == nil || b == nil {
+//@       return a == nil && b == nil
+//@    }
+//@    return a.SeqNo == b.SeqNo && bytes.Equal(a.Data, b.Data)
+//@ }
+//@ go func specRespSame(a, b commands.Response) bool {
+//@    switch x := a.(type) {
+//@    case *commands.PacketResponse:
+//@       y, ok := b.(*commands.PacketResponse)
+//@       if !ok || !specErrSame(x.Err, y.Err) {
+//@          return false
+//@       }
+//@       return x.Err != nil || (x.LastAckedSeqNo == y.LastAckedSeqNo && specPacketSame(x.Packet, y.Packet))
+//@    case *commands.VersionResponse:
+//@       y, ok := b.(*commands.VersionResponse)
+//@       return ok && specErrSame(x.Err, y.Err) && x.ServerVersion == y.ServerVersion && x.UserId == y.UserId
+//@    case *commands.SetOptionsResponse:
+//@       y, ok := b.(*commands.SetOptionsResponse)
+//@       return ok && specErrSame(x.Err, y.Err)
+//@    case *commands.ErrorResponse:
+//@       y, ok := b.(*commands.ErrorResponse)
+//@       return ok && specErrSame(x.Err, y.Err)
+//@    case *commands.TestDownstreamEncoderResponse:
+//@       y, ok := b.(*commands.TestDownstreamEncoderResponse)
+//@       return ok && specErrSame(x.Err, y.Err) && bytes.Equal(x.Data, y.Data)
+//@    case *commands.TestUpstreamEncoderResponse:
+//@       y, ok := b.(*commands.TestUpstreamEncoderResponse)
+//@       return ok && specErrSame(x.Err, y.Err) && bytes.Equal(x.Data, y.Data)
+//@    case *commands.TestDownstreamFragmentSizeResponse:
+//@       y, ok := b.(*commands.TestDownstreamFragmentSizeResponse)
+//@       return ok && specErrSame(x.Err, y.Err) && (x.Err != nil || (x.FragmentSize == y.FragmentSize && bytes.Equal(x.Data, y.Data)))
+//@    }
+//@    return false
+//@ }
+// specRespTrip sends one response the way the server does (serializer, record wrapping, DNS wire packing) and
+// reads it the way the client does.  stage tells where a failure was reported ("" = the client got a response).
+//@ go func specRespTrip(ser commands.Serializer, r commands.Response, qt dnsmessage.Type, down enc.Encoder) (got commands.Response, stage string) {
+//@    q := &mdns.Msg{}
+//@    q.Question = []mdns.Question{{Name: "cabc00abcdef." + ser.Domain + ".", Qtype: uint16(qt), Qclass: 1}}
+//@    m, err := ser.EncodeDnsResponseWithParams(r, q, qt, down)
+//@    if err != nil {
+//@       return nil, "encode"
+//@    }
+//@    w, b := specWire(m)
+//@    if w == nil && b == nil {
+//@       return nil, "pack"
+//@    } else if w == nil {
+//@       return nil, "unpack"
+//@    }
+//@    got, err = ser.DecodeDnsResponseWithParams(w, down)
+//@    if err != nil {
+//@       return nil, "decode"
+//@    }
+//@    return got, ""
+//@ }
+//@ go var specDomains = []string{"d", "example.org", strings.Repeat("t", 40) + "." + strings.Repeat("u", 40) + ".example.org"}
+//@ go func specSizes(big bool) []int {
+//@    var s []int
+//@    for i := 0; i <= 300; i++ {
+//@       s = append(s, i)
+//@    }
+//@    for i := 301; i <= 1300; i += 7 {
+//@       s = append(s, i)
+//@    }
+//@    s = append(s, 2048, 4095, 4096, 8191, 8192)
+//@    if big {
+//@       s = append(s, 65525, 65530, 65531)
+//@    }
+//@    return s
+//@ }
+//@ go func specSampleResponses(sz int) []commands.Response {
+//@    var rs []commands.Response
+//@    kinds := []int{sz}
+//@    if sz <= 64 {
+//@       kinds = []int{0, 1, 2, 3, 4}
+//@    }
+//@    for _, k := range kinds {
+//@       d := specPat(sz, k)
+//@       rs = append(rs,
+//@          &commands.PacketResponse{LastAckedSeqNo: uint16(sz * 257), Packet: &util.Packet{SeqNo: uint16(65535 - sz), Data: d}},
+//@          &commands.TestDownstreamFragmentSizeResponse{FragmentSize: uint32(sz), Data: d},
+//@          &commands.TestDownstreamEncoderResponse{Data: d},
+//@          &commands.TestUpstreamEncoderResponse{Data: d})
+//@    }
+//@    return rs
+//@ }
+//@ go func specFixedResponses() []commands.Response {
+//@    rs := []commands.Response{
+//@       &commands.PacketResponse{LastAckedSeqNo: 0}, &commands.PacketResponse{LastAckedSeqNo: 255}, &commands.PacketResponse{LastAckedSeqNo: 256}, &commands.PacketResponse{LastAckedSeqNo: 65535},
+//@       &commands.VersionResponse{ServerVersion: 0xcafebabe, UserId: 1295}, &commands.VersionResponse{}, &commands.VersionResponse{ServerVersion: 0xffffffff, UserId: 36},
+//@       &commands.SetOptionsResponse{},
+//@       &commands.TestDownstreamEncoderResponse{Data: []byte(util.DownloadCodecCheck)},
+//@    }
+//@    for _, e := range append(append([]error{}, commands.BadErrors...), errors.New("some other failure: 17")) {
+//@       rs = append(rs, &commands.PacketResponse{Err: e}, &commands.VersionResponse{ServerVersion: 7, UserId: 3, Err: e}, &commands.SetOptionsResponse{Err: e},
+//@          &commands.ErrorResponse{Err: e}, &commands.TestDownstreamEncoderResponse{Err: e}, &commands.TestUpstreamEncoderResponse{Err: e}, &commands.TestDownstreamFragmentSizeResponse{Err: e})
+//@    }
+//@    return rs
+//@ }
+// specSelectable: the codec probe of the handshake (the fixed pattern of all 8-bit classes comes back intact)
+// passes for this record type over a transparent wire.
+//@ go func specSelectable(ser commands.Serializer, qt dnsmessage.Type, down enc.Encoder) bool {
+//@    want := &commands.TestDownstreamEncoderResponse{Data: []byte(util.DownloadCodecCheck)}
+//@    got, stage := specRespTrip(ser, want, qt, down)
+//@    return stage == "" && specRespSame(want, got)
+//@ }
+// specResponsesSurvive: for the record type, every tunnel domain of the sample, every downstream codec the
+// handshake can select for it, every response type and payload size of the grid: the client recovers the same
+// response, or (only above mustCarry octets of payload) a failure is reported.  Never a different response.
+//@ go func specResponsesSurvive(qt dnsmessage.Type, mustCarry int) bool {
+//@    codecs := []enc.Encoder{enc.Base32Encoding, enc.Base64Encoding, enc.Base64uEncoding, enc.Base85Encoding, enc.Base91Encoding, enc.Base128Encoding}
+//@    big := false
+//@    if qt == util.QueryTypeNull || qt == util.QueryTypePrivate {
+//@       codecs = []enc.Encoder{enc.RawEncoding}
+//@       big = true
+//@    }
+//@    for _, domain := range specDomains {
+//@       ser := commands.Serializer{Domain: domain}
+//@       usable := 0
+//@       for _, down := range codecs {
+//@          if !specSelectable(ser, qt, down) {
+//@             continue
+//@          }
+//@          usable++
+//@          check := func(r commands.Response, sz int) bool {
+//@             got, stage := specRespTrip(ser, r, qt, down)
+//@             if stage == "" && !specRespSame(r, got) {
+//@                specWitness = fmt.Sprintf("record type %v, codec %s, domain %q, payload of %d octets: the client decodes a different response: sent %+v got %+v", qt, down.Name(), domain, sz, r, got)
+//@                return false
+//@             }
+//@             if stage != "" && sz <= mustCarry {
+//@                specWitness = fmt.Sprintf("record type %v, codec %s, domain %q, payload of %d octets: %T not carried (failure at %s)", qt, down.Name(), domain, sz, r, stage)
+//@                return false
+//@             }
+//@             return true
+//@          }
+//@          for _, r := range specFixedResponses() {
+//@             if !check(r, 0) {
+//@                return false
+//@             }
+//@          }
+//@          for _, sz := range specSizes(big) {
+//@             for _, r := range specSampleResponses(sz) {
+//@                if !check(r, sz) {
+//@                   return false
+//@                }
+//@             }
+//@          }
+//@       }
+//@       if usable == 0 {
+//@          specWitness = fmt.Sprintf("record type %v, domain %q: no downstream codec passes the handshake's own probe over a transparent wire", qt, domain)
+//@          return false
+//@       }
+//@    }
+//@    return true
+//@ }
+
+// specNameOnWire: the first question name of a packed message: every label at most 63 octets, the name (labels
+// and separating dots) at most 253.
+//@ go func specNameOnWire(b []byte) bool {
+//@    off, total := 12, 0
+//@    for off < len(b) && b[off] != 0 {
+//@       l := int(b[off])
+//@       if l > 63 {
+//@          return false
+//@       }
+//@       total += l + 1
+//@       off += l + 1
+//@    }
+//@    return off < len(b) && total-1 <= 253
+//@ }
+//@ go func specReqTrip(ser commands.Serializer, req commands.Request, qt dnsmessage.Type) (got commands.Request, stage string) {
+//@    m, err := ser.EncodeDnsRequestWithParams(req, qt, ser.Upstream.Encoder)
+//@    if err != nil {
+//@       return nil, "encode"
+//@    }
+//@    w, b := specWire(m)
+//@    if w == nil && b == nil {
+//@       return nil, "pack"
+//@    } else if w == nil {
+//@       return nil, "unpack"
+//@    }
+//@    if !specNameOnWire(b) {
+//@       return nil, "name-limits"
+//@    }
+//@    got, err = ser.DecodeDnsRequest(commands.ComposeRequest(w, ser.Domain))
+//@    if err != nil {
+//@       return nil, "decode"
+//@    }
+//@    return got, ""
+//@ }
+//@ go func specBoolSame(a, b *bool) bool {
+//@    if a == nil || b == nil {
+//@       return a == nil && b == nil
+//@    }
+//@    return *a == *b
+//@ }
+//@ go func specReqSame(a, b commands.Request) bool {
+//@    switch x := a.(type) {
+//@    case *commands.PacketRequest:
+//@       y, ok := b.(*commands.PacketRequest)
+//@       return ok && x.UserId == y.UserId && x.LastAckedSeqNo == y.LastAckedSeqNo && specPacketSame(x.Packet, y.Packet)
+//@    case *commands.VersionRequest:
+//@       y, ok := b.(*commands.VersionRequest)
+//@       return ok && x.ClientVersion == y.ClientVersion
+//@    case *commands.SetOptionsRequest:
+//@       y, ok := b.(*commands.SetOptionsRequest)
+//@       if !ok || x.UserId != y.UserId || !specBoolSame(x.LazyMode, y.LazyMode) || !specBoolSame(x.MultiQuery, y.MultiQuery) || !specBoolSame(x.Closed, y.Closed) {
+//@          return false
+//@       }
+//@       if x.DownstreamEncoder != y.DownstreamEncoder || x.UpstreamEncoder != y.UpstreamEncoder || (x.DownstreamFragmentSize == nil) != (y.DownstreamFragmentSize == nil) {
+//@          return false
+//@       }
+//@       return x.DownstreamFragmentSize == nil || *x.DownstreamFragmentSize == *y.DownstreamFragmentSize
+//@    case *commands.TestDownstreamEncoderRequest:
+//@       y, ok := b.(*commands.TestDownstreamEncoderRequest)
+//@       return ok && x.DownstreamEncoder == y.DownstreamEncoder
+//@    case *commands.TestDownstreamFragmentSizeRequest:
+//@       y, ok := b.(*commands.TestDownstreamFragmentSizeRequest)
+//@       return ok && x.UserId == y.UserId && x.FragmentSize == y.FragmentSize
+//@    case *commands.TestUpstreamEncoderRequest:
+//@       y, ok := b.(*commands.TestUpstreamEncoderRequest)
+//@       return ok && x.UserId == y.UserId && bytes.Equal(x.Pattern, y.Pattern)
+//@    }
+//@    return false
+//@ }
+//@ go func specDomainOfLen(n int) string {
+//@    d := ""
+//@    for len(d) < n {
+//@       d += strings.Repeat("d", 50) + "."
+//@    }
+//@    return d[:n-1] + "x"
+//@ }
+//@ go func specFixedRequests() []commands.Request {
+//@    tr, fa := true, false
+//@    var rs []commands.Request
+//@    for _, v := range []uint32{0, 1, 255, 256, 65535, 65536, 0xdeadbeef, 0xffffffff} {
+//@       v := v
+//@       rs = append(rs, &commands.VersionRequest{ClientVersion: v}, &commands.TestDownstreamFragmentSizeRequest{UserId: uint16(v % 1296), FragmentSize: v})
+//@       if v != 0xffffffff {
+//@          rs = append(rs, &commands.SetOptionsRequest{UserId: uint16(v % 1296), DownstreamFragmentSize: &v})
+//@       }
+//@    }
+//@    all := []enc.Encoder{enc.RawEncoding, enc.Base32Encoding, enc.Base64Encoding, enc.Base64uEncoding, enc.Base85Encoding, enc.Base91Encoding, enc.Base128Encoding}
+//@    for i, c := range all {
+//@       rs = append(rs, &commands.TestDownstreamEncoderRequest{DownstreamEncoder: c})
+//@       rs = append(rs, &commands.SetOptionsRequest{UserId: uint16(i), DownstreamEncoder: c, UpstreamEncoder: all[(i+3)%len(all)]})
+//@       for _, p := range c.TestPatterns() {
+//@          rs = append(rs, &commands.TestUpstreamEncoderRequest{UserId: uint16(35 + i), Pattern: p})
+//@       }
+//@    }
+//@    for _, a := range []*bool{nil, &tr, &fa} {
+//@       for _, b := range []*bool{nil, &tr, &fa} {
+//@          for _, c := range []*bool{nil, &tr, &fa} {
+//@             rs = append(rs, &commands.SetOptionsRequest{UserId: 1295, LazyMode: a, MultiQuery: b, Closed: c})
+//@          }
+//@       }
+//@    }
+//@    for u := 0; u < 1296; u++ {
+//@       rs = append(rs, &commands.PacketRequest{UserId: uint16(u), LastAckedSeqNo: uint16(u * 50)})
+//@    }
+//@    return rs
+//@ }
+// specRequestsSurvive: every upstream codec the handshake can select, tunnel domains of several lengths, every
+// request type, every payload length 0..the upstream fragment size the client computes for that codec and
+// domain: the question is a valid DNS name on the wire and the server decodes the same request.
+//@ go func specRequestsSurvive() bool {
+//@    for _, e := range []enc.Encoder{enc.Base32Encoding, enc.Base64Encoding, enc.Base64uEncoding, enc.Base85Encoding, enc.Base91Encoding, enc.Base128Encoding} {
+//@       for _, n := range []int{1, 2, 11, 40, 63, 100, 150} {
+//@          dc := &ClientDnsConnection{}
+//@          dc.Serializer.Domain = specDomainOfLen(n)
+//@          dc.Serializer.Upstream.Encoder = e
+//@          mtu := int(dc.getUpstreamMtu())
+//@          if mtu <= 0 || mtu > 1000 {
+//@             specWitness = fmt.Sprintf("codec %s, domain of %d octets: upstream fragment size %d", e.Name(), n, mtu)
+//@             return false
+//@          }
+//@          check := func(req commands.Request, qt dnsmessage.Type) bool {
+//@             got, stage := specReqTrip(dc.Serializer, req, qt)
+//@             if stage != "" {
+//@                specWitness = fmt.Sprintf("codec %s, domain of %d octets, %T %+v: not carried (failure at %s)", e.Name(), n, req, req, stage)
+//@                return false
+//@             }
+//@             if !specReqSame(req, got) {
+//@                specWitness = fmt.Sprintf("codec %s, domain of %d octets: the server decodes a different request: sent %+v got %+v", e.Name(), n, req, got)
+//@                return false
+//@             }
+//@             return true
+//@          }
+//@          for _, r := range specFixedRequests() {
+//@             if !check(r, util.QueryTypeCname) {
+//@                return false
+//@             }
+//@          }
+//@          for sz := 0; sz <= mtu; sz++ {
+//@             for k := 0; k < 5; k++ {
+//@                req := &commands.PacketRequest{UserId: uint16((sz*7 + k) % 1296), LastAckedSeqNo: uint16(sz * 131), Packet: &util.Packet{SeqNo: uint16(65535 - sz), Data: specPat(sz, k)}}
+//@                if !check(req, util.QueryTypeNull) {
+//@                   return false
+//@                }
+//@             }
+//@          }
+//@       }
+//@    }
+//@    return true
+//@ }
+
+//@ func init
+//@   property C09, C11
+//@ fact fullFragmentFits()                                      :bounded_full_fragment_fits_a_name_for_every_codec_and_domain_length
+//@   property C09
+//@ fact specRequestsSurvive()                                   :bounded_requests_survive_the_wire_for_every_command_codec_domain_and_size
+//@   property C10
+//@ fact specResponsesSurvive(util.QueryTypeNull, 8192)          :bounded_null_responses_survive_the_wire
+//@ fact specResponsesSurvive(util.QueryTypePrivate, 8192)       :bounded_private_responses_survive_the_wire
+//@ fact specResponsesSurvive(util.QueryTypeTxt, 8192)           :bounded_txt_responses_survive_the_wire
+//@ fact specResponsesSurvive(util.QueryTypeSrv, 8192)           :bounded_srv_responses_survive_the_wire
+//@ fact specResponsesSurvive(util.QueryTypeMx, 8192)            :bounded_mx_responses_survive_the_wire
+//@ fact specResponsesSurvive(util.QueryTypeCname, 8192)         :bounded_cname_responses_survive_the_wire
+//@ fact specResponsesSurvive(util.QueryTypeAAAA, 8192)          :bounded_aaaa_responses_survive_the_wire
+//@ fact specResponsesSurvive(util.QueryTypeA, 400)              :bounded_a_responses_survive_the_wire
